@@ -100,6 +100,7 @@ def main(pid, tier, seed):
     # ---- command line: stdout and -o file ----
     rcopy = core.repo_copy('cli')
     jobs = []
+    n_preexisting = [0]
     for k, (d, desc, flags, full) in enumerate(cli_jobs[:8] if tier == 'quick' else cli_jobs[:60]):
         name = 'v%d' % k
         os.symlink(d, os.path.join(rcopy, 'Rules', name))
@@ -114,6 +115,11 @@ def main(pid, tier, seed):
                 ofile = os.path.join(work, 'out_%d_%s_%s.txt' % (k, N, tofile)) if tofile else None
                 if ofile:
                     args += ['-o', ofile]
+                    if len(jobs) % 4 < 2:
+                        # the user regenerates a wordlist at a path that already holds an older, longer one
+                        with open(ofile, 'w') as f:
+                            f.write(''.join('stale%d\n' % i for i in range(total + 5)))
+                        n_preexisting[0] += 1
                 jobs.append((args, desc, flags, full, N, ofile))
 
     def runcli(job):
@@ -181,7 +187,7 @@ def main(pid, tier, seed):
            'model_checking': mc, 'evaluations': len(alltr), 'distinct_nontrivial': distinct,
            'rule': 'queue trace = one exhaustive run of the real PcfgQueue on a Prince grammar; pt trace = one Prince pre-terminal expanded; '
                    'limit trace = create_prince_wordlist(size=N) in-process or prince_ling.py subprocess (stdout / -o file)',
-           'rulesets': len(rdirs), 'cli_runs': len(jobs),
+           'rulesets': len(rdirs), 'cli_runs': len(jobs), 'cli_runs_writing_over_an_older_longer_file': n_preexisting[0],
            'trace_validation': {'TrPTQ': st1, 'TrExpand': st2}, 'exhaustive': False, 'binding_selftest': selftest,
            'known_findings_reproduced': n_known, 'violation_histogram': verdict.histogram()}
     core.write_evidence(pid, tier, seed, 'model_checking', cov, time.time() - t0, violations=n_viol,
